@@ -10,7 +10,7 @@ from specs.common import *
 from specs import event_entry
 from specs.event_entry import handler_effects, HANDLER_EFFECTS
 
-declare_fields(st_items=DICT, persistent=BOOL, init_timeout=VAL, stop_timeout=VAL, persistent_dict=VAL, _init_done=Ref('AsyncEvent'), ev_set=BOOL)
+declare_fields(st_items=DICT, persistent=BOOL, persistent_dict=VAL, _init_done=Ref('AsyncEvent'), ev_set=BOOL)
 Q = 'edzed.simulator:Circuit.'
 has_method = Function('has_method', IntSort(), StringSort(), BoolSort())
 AP = lambda: calls.C_class('AddonPersistence')
